@@ -101,7 +101,6 @@ def ca_post(I, outcome, ctx):
     if kind == 'raise':
         cover(I, 'raise')
         # an exception is a refusal: the protected handler does not proceed; nothing more to show
-        I.oblige('raise.not_logged_in', z3.BoolVal(True))
         return
     cover(I, 'return')
     isb = isinstance(v, VBool)
